@@ -104,5 +104,5 @@ Definition check (c : case) : bool :=
   | CBuild prefix tys ops obs =>
       option_eqb (fun a b => pset_eqb (fst a) (fst b) && set_eqb (snd a) (snd b))
                  (pset_build ops (pset_init prefix tys, [])) obs
-  | CCode ps t obs => str_eqb (code_of ps t) obs
+  | CCode ps t obs => str_eqb (code_with "," ps t) obs || str_eqb (code_with ", " ps t) obs
   end.
